@@ -40,7 +40,11 @@ fn main() {
         }
         return;
     }
+    if std::env::var("VERIF_CHILD").is_err() {
+        std::process::exit(supervise(id));
+    }
     let rep: &'static mc::report::Report = Box::leak(Box::new(mc::report::Report::new(id)));
+    mc::report::start_stall_watchdog(rep);
     match id {
         "C01" => mc::checks::c01::run(rep),
         "C02" => mc::checks::c02::run(rep),
@@ -68,4 +72,54 @@ fn main() {
         }
     }
     std::process::exit(rep.finish());
+}
+
+/// Run the check in a child process. The code under test can take the whole process down (stack
+/// overflow from unbounded recursion, abort): that must end the check with a verdict — the child
+/// being killed by a signal is reported as a violation, with the tail of its stderr — while every
+/// ordinary outcome (exit 0 / 1 / 2) is passed through unchanged.
+fn supervise(id: &str) -> i32 {
+    use std::io::{BufRead, BufReader};
+    use std::process::{Command, Stdio};
+    let exe = std::env::current_exe().expect("current_exe");
+    let mut child = match Command::new(exe).arg(id).env("VERIF_CHILD", "1").stderr(Stdio::piped()).spawn() {
+        Ok(c) => c,
+        Err(e) => {
+            eprintln!("MACHINERY: cannot start the check process: {}", e);
+            return 2;
+        }
+    };
+    let err = child.stderr.take().expect("stderr");
+    let tail = std::thread::spawn(move || {
+        let mut keep: std::collections::VecDeque<String> = std::collections::VecDeque::new();
+        for l in BufReader::new(err).lines().map_while(Result::ok) {
+            eprintln!("{}", l);
+            keep.push_back(l);
+            if keep.len() > 30 {
+                keep.pop_front();
+            }
+        }
+        keep.into_iter().collect::<Vec<String>>()
+    });
+    let status = child.wait().expect("wait");
+    let tail = tail.join().unwrap_or_default();
+    if let Some(code) = status.code() {
+        return code;
+    }
+    #[cfg(unix)]
+    let sig = std::os::unix::process::ExitStatusExt::signal(&status).unwrap_or(0);
+    #[cfg(not(unix))]
+    let sig = 0;
+    let dir = "/verif/replay";
+    let _ = std::fs::create_dir_all(dir);
+    let path = format!("{}/{}-crash.json", dir, id);
+    let what = format!("the check process was killed by signal {} while exercising the code under test (a crash of the subject: stack overflow from unbounded recursion, abort, ...); last lines of its stderr: {:?}", sig, tail);
+    let body = serde_json::json!({"property": id, "fingerprint": format!("process killed by signal {}", sig), "what": what, "case": {"stderr_tail": tail}});
+    let _ = std::fs::write(&path, serde_json::to_string_pretty(&body).unwrap());
+    // no evidence rather than a stale file from an earlier run
+    let _ = std::fs::remove_file(format!("/verif/evidence/{}.json", id));
+    println!("VIOLATION property={} replay={}", id, path);
+    println!("  fingerprint: process killed by signal {}", sig);
+    println!("  what: {}", what);
+    1
 }
